@@ -1036,6 +1036,82 @@ theorem created_permissions {P : Prims} (id : Bytes) (user owner : Passwd) (oe :
   · rw [h6]; exact perm_algebra perm hp 6 (by decide)
 
 
+/-! ## the ID at `Close`, the Crypt-first rule in `OpenStream` -/
+
+/-- if `Writer.Close` goes on in an encrypted file, the first ID it writes to the trailer is the
+one the key was derived from (so that `owner_pw_opens`/`user_pw_opens` apply to the reader's
+handler, whose `ID` is that trailer entry) -/
+theorem closeCheckID_ok (enc : EncInfo) (ids : List Bytes) (h : closeCheckID (some enc) ids = .ok ()) :
+    ∃ b, ids = [enc.sec.ID, b] := by
+  unfold closeCheckID at h
+  match ids, h with
+  | [a, b], h =>
+    by_cases he : (a == enc.sec.ID) = true
+    · exact ⟨b, by simp at he; rw [he]⟩
+    · simp [he] at h
+
+theorem any_isCrypt_of_head (a : List FilterKind) (h1 : cryptBehindFirst a = false)
+    (h2 : a.head? ≠ some .cryptOther) (h3 : a.head? ≠ some .cryptIdentity) : a.any (·.isCrypt) = false := by
+  cases a with
+  | nil => rfl
+  | cons x xs =>
+    simp only [cryptBehindFirst] at h1
+    cases x with
+    | cryptIdentity => simp at h3
+    | cryptOther => simp at h2
+    | other => simpa [FilterKind.isCrypt] using h1
+
+/-- **crypt_first.**  Whenever `OpenStream` accepts a combination of a dictionary chain and a
+filters argument, the chain written to the file has no Crypt filter behind the first position,
+no Crypt filter other than Identity, and the default encryption is skipped exactly when the
+chain starts with `/Crypt /Identity`. -/
+theorem crypt_first (d a ch : List FilterKind) (skip : Bool)
+    (h : openStreamChain d a = .ok (ch, skip)) :
+    ch = d ++ a ∧ cryptBehindFirst ch = false ∧ ch.head? ≠ some .cryptOther ∧
+    (skip = true ↔ ch.head? = some .cryptIdentity) := by
+  unfold openStreamChain at h
+  by_cases c1 : cryptBehindFirst a = true
+  · simp [c1] at h
+  by_cases c2 : (a.head? == some FilterKind.cryptOther) = true
+  · simp [c1, c2] at h
+  by_cases c3 : cryptBehindFirst d = true
+  · simp [c1, c2, c3] at h
+  by_cases c4 : (d.head? == some FilterKind.cryptOther) = true
+  · simp [c1, c2, c3, c4] at h
+  by_cases c5 : (a.head? == some FilterKind.cryptIdentity && !d.isEmpty) = true
+  · simp [c1, c2, c3, c4, c5] at h
+  simp only [c1, c2, c3, c4, c5, Bool.false_eq_true, ↓reduceIte, Except.ok.injEq, Prod.mk.injEq] at h
+  obtain ⟨hch, hskip⟩ := h
+  subst hch hskip
+  have c1' : cryptBehindFirst a = false := by simpa using c1
+  have c3' : cryptBehindFirst d = false := by simpa using c3
+  have c2' : a.head? ≠ some .cryptOther := by simpa using c2
+  have c4' : d.head? ≠ some .cryptOther := by simpa using c4
+  cases d with
+  | nil =>
+    refine ⟨rfl, by simpa using c1', by simpa using c2', by simp⟩
+  | cons x xs =>
+    have c5' : a.head? ≠ some .cryptIdentity := by
+      intro h5; simp [h5] at c5
+    have ha := any_isCrypt_of_head a c1' c2' c5'
+    simp only [cryptBehindFirst] at c3'
+    refine ⟨rfl, ?_, ?_, ?_⟩
+    · simp only [List.cons_append, cryptBehindFirst, List.any_append, c3', ha, Bool.or_self]
+    · simpa using c4'
+    · simp only [List.cons_append, List.head?_cons]
+      constructor
+      · intro h
+        simp only [Bool.or_eq_true, beq_iff_eq] at h
+        rcases h with h | h
+        · exact absurd h c5'
+        · simpa using h
+      · intro h; simp [h]
+
+example : openStreamChain [.other] [.cryptIdentity] = .error .other := rfl
+example : openStreamChain [.cryptOther] [] = .error .other := rfl
+example : openStreamChain [.cryptIdentity, .other] [.other] = .ok ([.cryptIdentity, .other, .other], true) := rfl
+
+
 /-! ## non-vacuity: the hypotheses can be met
 
 `toyOK : PrimsOK toyPrims` (Lemmas/SECBasic.lean) is an instance of the hypotheses on the
